@@ -522,10 +522,10 @@ def value_oracle(t, symbolic=True):
 
 # ------------------------------------------------------------------------------------------------
 # implementation drivers for the JSON model
-def impl_json(kind, payload):
+def impl_json(kind, payload, symbolic=True):
   p = pg()
   if kind in (0, 1, 2, 3, 6):
-    v = pv_to_py(payload)
+    v = pv_to_py(payload, symbolic)
   if kind == 0:
     return json_to_jv(p.to_json(v))
   if kind == 1:
@@ -1147,11 +1147,13 @@ def run(ctx):
     obj, emp, st = reserved(t)
     ctx.hist('reserved', 'object-form' if obj else 'string-form-only' if st else 'empty-tuple' if emp else 'none')
     nontrivial = bool(fs_ & {'list', 'tuple', 'dict', 'object', 'special-float', 'control-char', 'astral-char', 'lone-surrogate'})
+    as_symbolic = r.random() < 0.75 or any(reserved(t))      # otherwise plain list / dict containers (utils.to_json path)
+    ctx.hist('containers', 'symbolic' if as_symbolic else 'plain')
     for kind in (0, 1, 2, 3, 6):
       if kind in (2, 3) and 'surrogate-pair-in-string' in st:
         continue      # outside the domain of the json.loads/json.dumps hypothesis: the text layer merges the pair
       try:
-        out = impl_json(kind, t)
+        out = impl_json(kind, t, as_symbolic)
       except Exception as e:
         out = [1, 78, S(type(e).__name__)]
       add_case([0, [q, ct, kind, t]], out, dict(part='value', kind=kind, value=t))
